@@ -1,0 +1,71 @@
+//go:build verif
+
+// Contracts for the point decoders of this curve (comment-only; installed by /verif/gcv gen-contracts).
+// Layer "ring fp.Element": coordinates are abstract field elements; their byte decoders (SetBytesCanonical, proved under
+// C08 for the base field) are opaque at this layer and only their error results are used. The clauses are
+// acceptance-implies-check clauses: a nil error is returned only if every check the format prescribes was made,
+// on the values that end up in the point.
+
+package bw6633
+
+
+//@ func G2Affine.IsInSubGroup
+//@ layer ring fp.Element
+//@ assumed the subgroup test is a pure predicate of the point (its exactness is number theory: not proved); membership implies being on the curve
+//@ ensures[value] result == ufbool_insubgroup(p.X, p.Y)
+//@ modifies nothing
+//@ end
+
+//@ func G2Affine.setBytes
+//@ layer ring fp.Element
+//@ option nomerge
+//@ ghost canonX = false
+//@ ghost canonY = false
+//@ ghost insub = false
+//@ ghost oncurve = false
+//@ ghost zeroed = false
+//@ ghost md = 0
+//@ cut after def mData #1
+//@ + ghost md = mData
+//@ cut after call isZeroed #1
+//@ + ghost zeroed = callresult
+//@ cut after call SetBytesCanonical #1
+//@ + ghost canonX = isnil(callresult)
+//@ cut after call SetBytesCanonical #2
+//@ + ghost canonY = isnil(callresult)
+//@ cut after call IsInSubGroup #1
+//@ + ghost insub = callresult
+//@ cut after call IsOnCurve #1
+//@ + ghost oncurve = callresult
+//@ ensures[short] len(buf) < SizeOfG2AffineCompressed ==> !isnil(result1) && result0 == 0
+//@ ensures[reject-count] !isnil(result1) ==> result0 == 0
+//@ ensures[infinity] isnil(result1) && md == mCompressedInfinity ==> zeroed && iszero(p.X) && iszero(p.Y) && result0 == SizeOfG2AffineCompressed
+//@ ensures[valid-mask] isnil(result1) ==> md == mUncompressed || md == mUncompressedInfinity || md == mCompressedSmallest || md == mCompressedLargest || md == mCompressedInfinity
+//@ ensures[short-raw] (md == mUncompressed || md == mUncompressedInfinity) && len(buf) < SizeOfG2AffineUncompressed ==> !isnil(result1) && result0 == 0
+//@ ensures[infinity-raw] isnil(result1) && md == mUncompressedInfinity ==> zeroed && iszero(p.X) && iszero(p.Y) && result0 == SizeOfG2AffineUncompressed
+//@ ensures[raw-canonical] isnil(result1) && md == mUncompressed ==> canonX && canonY && result0 == SizeOfG2AffineUncompressed
+//@ ensures[raw-on-curve] isnil(result1) && md == mUncompressed ==> (subGroupCheck && insub) || (!subGroupCheck && oncurve)
+//@ ensures[compressed-canonical] isnil(result1) && (md == mCompressedSmallest || md == mCompressedLargest) ==> canonX && result0 == SizeOfG2AffineCompressed
+//@ ensures[compressed-root] isnil(result1) && (md == mCompressedSmallest || md == mCompressedLargest) ==> hasroot(p.X*p.X*p.X + bTwistCurveCoeff) && (p.Y == sqrt(p.X*p.X*p.X + bTwistCurveCoeff) || p.Y == -sqrt(p.X*p.X*p.X + bTwistCurveCoeff))
+//@ ensures[compressed-sign] isnil(result1) && (md == mCompressedSmallest || md == mCompressedLargest) && !iszero(p.Y) ==> (md == mCompressedLargest) == ((p.Y == sqrt(p.X*p.X*p.X + bTwistCurveCoeff)) == lexlargest(sqrt(p.X*p.X*p.X + bTwistCurveCoeff)))
+//@ ensures[compressed-subgroup] isnil(result1) && (md == mCompressedSmallest || md == mCompressedLargest) && subGroupCheck ==> insub
+//@ modifies p
+//@ end
+
+//@ func G2Affine.unsafeSetCompressedBytes
+//@ layer ring fp.Element
+//@ option nomerge
+//@ ghost canonX = false
+//@ ghost zeroed = false
+//@ ghost md = 0
+//@ cut after def mData #1
+//@ + ghost md = mData
+//@ cut after call isZeroed #1
+//@ + ghost zeroed = callresult
+//@ cut after call SetBytesCanonical #1
+//@ + ghost canonX = isnil(callresult)
+//@ requires len(buf) >= SizeOfG2AffineCompressed
+//@ ensures[infinity] isnil(err) && md == mCompressedInfinity ==> isInfinity && zeroed && iszero(p.X) && iszero(p.Y)
+//@ ensures[canonical] isnil(err) && md != mCompressedInfinity ==> !isInfinity && canonX
+//@ modifies p
+//@ end
